@@ -161,3 +161,91 @@ func ApplyLayout(data []byte, v LayoutVariant) ([]byte, error) {
 	}
 	return out, nil
 }
+
+// InsertMoofPssh returns a copy of a fragmented stream in which every moof carries two pssh boxes of different
+// sizes (version 0 and version 1) right after its mfhd, as key-rotation content does. Everything that counts bytes
+// from the start of the moof is moved along: moof size, trun data_offset, saio offsets. Streams with a top-level
+// sidx/mfra (whose byte counts would have to follow) or explicit tfhd base_data_offset are refused.
+func InsertMoofPssh(data []byte) ([]byte, error) {
+	top, err := ref.Walk(data, 0, int64(len(data)), true)
+	if err != nil {
+		return nil, err
+	}
+	sys := []byte{0xed, 0xef, 0x8b, 0xa9, 0x79, 0xd6, 0x4a, 0xce, 0xa3, 0xc8, 0x27, 0xdc, 0xd5, 0x1d, 0x21, 0xed}
+	mk := func(ver byte, kids int, dataLen int) []byte {
+		pl := []byte{ver, 0, 0, 0}
+		pl = append(pl, sys...)
+		if ver > 0 {
+			pl = append(pl, 0, 0, 0, byte(kids))
+			for i := 0; i < kids; i++ {
+				pl = append(pl, make([]byte, 16)...)
+			}
+		}
+		pl = append(pl, 0, 0, 0, byte(dataLen))
+		for i := 0; i < dataLen; i++ {
+			pl = append(pl, byte(i))
+		}
+		b := make([]byte, 8, 8+len(pl))
+		binary.BigEndian.PutUint32(b, uint32(8+len(pl)))
+		copy(b[4:], "pssh")
+		return append(b, pl...)
+	}
+	ins := append(mk(0, 0, 11), mk(1, 1, 60)...)
+	S := int64(len(ins))
+	var out []byte
+	n := 0
+	for _, b := range top {
+		if b.Type == "sidx" || b.Type == "mfra" {
+			return nil, fmt.Errorf("variant: stream has a top-level %s", b.Type)
+		}
+		if b.Type != "moof" {
+			out = append(out, data[b.Start:b.End()]...)
+			continue
+		}
+		mfhd := b.Find("mfhd")
+		if mfhd == nil || b.Hdr != 8 {
+			return nil, fmt.Errorf("variant: moof without mfhd")
+		}
+		base := int64(len(out)) - b.Start // where this moof lands in out
+		out = append(out, data[b.Start:mfhd.End()]...)
+		out = append(out, ins...)
+		out = append(out, data[mfhd.End():b.End()]...)
+		binary.BigEndian.PutUint32(out[base+b.Start:], uint32(b.Size+S))
+		for _, traf := range b.FindAll("traf") {
+			if tfhd := traf.Find("tfhd"); tfhd != nil && data[tfhd.Payload()+3]&0x01 != 0 {
+				return nil, fmt.Errorf("variant: tfhd with base_data_offset")
+			}
+			for _, c := range traf.Children {
+				at := base + S + c.Payload() // children of traf lie after the insertion point
+				switch c.Type {
+				case "trun":
+					if data[c.Payload()+3]&0x01 != 0 {
+						v := int32(binary.BigEndian.Uint32(out[at+8:])) + int32(S)
+						binary.BigEndian.PutUint32(out[at+8:], uint32(v))
+					}
+				case "saio":
+					p := at + 4
+					if data[c.Payload()+3]&0x01 != 0 {
+						p += 8
+					}
+					cnt := int(binary.BigEndian.Uint32(out[p:]))
+					p += 4
+					for i := 0; i < cnt; i++ {
+						if data[c.Payload()] == 0 {
+							binary.BigEndian.PutUint32(out[p:], binary.BigEndian.Uint32(out[p:])+uint32(S))
+							p += 4
+						} else {
+							binary.BigEndian.PutUint64(out[p:], binary.BigEndian.Uint64(out[p:])+uint64(S))
+							p += 8
+						}
+					}
+				}
+			}
+		}
+		n++
+	}
+	if n == 0 {
+		return nil, fmt.Errorf("variant: no moof")
+	}
+	return out, nil
+}
